@@ -28,7 +28,7 @@ RULE = (
     "section, an interval, a block, a symbol and >= 2 non-default enum values; distinct = SHA-1 of canonical JSON"
 )
 ASSUMPTIONS = [
-    "messages are referentially closed inside each module (symbol referents, expression symbols, entry point)",
+    "symbol referents and expression symbols are closed inside each module, entry points inside the IR (cross-module symbol references are not claimed: the loader resolves them module by module, and C01 excludes them from a self-contained IR)",
     "the protobuf runtime's own parse/serialise is trusted",
 ]
 REQUIRED_TAGS = {
